@@ -7,6 +7,8 @@ import (
 	"container/list"
 	"sync"
 	"sync/atomic"
+
+	"github.com/pion/webrtc/v4/internal/verifhook"
 )
 
 // Operation is a function.
@@ -129,6 +131,7 @@ func (o *operations) pop() func() {
 
 func (o *operations) start() {
 	defer func() {
+		verifhook.Yield("ops.exit", o, 0)
 		o.mu.Lock()
 		defer o.mu.Unlock()
 		// this wil lbe the most recent busy chan
@@ -148,9 +151,11 @@ func (o *operations) start() {
 
 	fn := o.pop()
 	for fn != nil {
+		verifhook.Yield("ops.run", o, 0)
 		fn()
 		fn = o.pop()
 	}
+	verifhook.Yield("ops.idle", o, 0)
 	if !o.updateNegotiationNeededFlagOnEmptyChain.Load() {
 		return
 	}
